@@ -89,8 +89,8 @@ func Run(s *Stream, fast bool) Result {
 	select {
 	case r := <-ch:
 		return r
-	case <-time.After(20 * time.Second):
-		return Result{Msg: "the importer did not return within 20s", Hang: true}
+	case <-time.After(180 * time.Second):
+		return Result{Msg: "the importer did not return within 180s", Hang: true}
 	}
 }
 
@@ -217,8 +217,8 @@ func RunCompressed(s *Stream, fast bool) Result {
 	select {
 	case r := <-ch:
 		return r
-	case <-time.After(20 * time.Second):
-		return Result{Msg: "the compressed importer did not return within 20s", Hang: true}
+	case <-time.After(180 * time.Second):
+		return Result{Msg: "the compressed importer did not return within 180s", Hang: true}
 	}
 }
 
